@@ -152,6 +152,21 @@ def run_check(prop, tier='quick', seed=0, strict=False, procs=None):
         functions_under_contract.append({k: r.get(k) for k in (
             'function', 'file', 'line', 'sha256', 'dropped', 'cut', 'paths', 'completed_paths',
             'exits', 'called', 'inlined', 'abstracted', 'abstracted_sha', 'opaque', 'wall_s', 'undecided')})
+        # an abstracted statement that has disappeared from a function verified on the baseline: the ghost model that
+        # stood for it describes nothing any more
+        base_fn = baseline.get(r['function'], {})
+        for prefix in (r.get('abstract_missing') or []):
+            if prefix in (base_fn.get('abstracted_sha') or {}) and base_fn.get('sha256') != r.get('sha256'):
+                oid = '%s:abstraction-justified[%s]' % (r['function'], prefix)
+                obligations += 1
+                ob_records.append({'id': oid, 'kind': 'abstraction', 'result': 'refuted', 'instances': 1, 'ms': 0,
+                                   'solver': ['text comparison'], 'line': r.get('line')})
+                violations.append(write_replay(prop, oid, {
+                    'function': r['function'], 'file': r.get('file'), 'obligation': oid, 'reproduced': False,
+                    'family': r['family'], 'replayer': r['function'], 'label': 'abstraction-justified[%s]' % prefix,
+                    'solver_output': 'the statement starting with %r, which the contract replaces by a ghost model, is no '
+                                     'longer in the function (baseline sha256 %s, now %s)'
+                                     % (prefix, base_fn.get('sha256'), r.get('sha256'))}))
         # statements replaced by a ghost model are trusted to mean what the model says: if their text differs from
         # the text recorded with the baseline, that trust is gone and the affected obligations are not discharged
         base_abs = baseline.get(r['function'], {}).get('abstracted_sha') or {}
